@@ -90,11 +90,16 @@ JClHeader(rec) ==
           <<(wf /\ rec.ok) => EmptyPair \notin obsargs, "metadata that is empty or ends in a comma adds the entry '' -> '' to Arguments">>,
           <<scope = "dpkg-rejects" => ~rec.ok, "a header line that dpkg refuses is accepted">> >>)
 
+\* an I/O error of the source is an error of the read: it is reported by the constructor or by a Next, never lost
+\* (15 = the number of bytes NewParagraphReader looks at to recognise an OpenPGP armor)
+JSrcFault(rec) == Checks(IF rec.in.at < 15 THEN "source-fails-in-the-first-15-bytes" ELSE "source-fails-later",
+                         << <<rec.reported, "a read error of the source is lost: reading goes on as if nothing had happened">> >>)
+
 Judge(rec) ==
     CASE rec.ev = "vacc" -> JVacc(rec) [] rec.ev = "archs" -> JArchs(rec) [] rec.ev = "wild" -> JWild(rec)
       [] rec.ev = "byhash" -> JByHash(rec) [] rec.ev = "getdsc" -> JGetDsc(rec) [] rec.ev = "compressor" -> JCompressor(rec)
       [] rec.ev = "decompressor" -> JDecompressor(rec) [] rec.ev = "xzdict" -> JXz(rec) [] rec.ev = "loadfile" -> JLoadFile(rec)
-      [] rec.ev = "filevariants" -> JFileVariants(rec) [] rec.ev = "clheader" -> JClHeader(rec)
+      [] rec.ev = "filevariants" -> JFileVariants(rec) [] rec.ev = "clheader" -> JClHeader(rec) [] rec.ev = "srcfault" -> JSrcFault(rec)
       [] OTHER -> V(FALSE, "unknown-event", "unknown event")
 
 Init == l \in 1..Len(Trace) /\ verdict = Pending
